@@ -291,7 +291,7 @@ Section RowsProofs.
       assert (Hd : wsub32 t' match prev with Some q => q | None => t' end < 2 ^ 32)
         by (apply wsub32_lt; [exact Ht | destruct prev; assumption]).
       rewrite app_length in Hlen. cbn [length] in Hlen.
-      change (2 ^ 64) with 18446744073709551616. change (2 ^ 32) with 4294967296 in *. nia.
+      change (2 ^ 64) with 18446744073709551616. change (2 ^ 32) with 4294967296 in *. lia.
     - destruct prev; [rewrite step_undecoded_some in Hrow | rewrite step_undecoded_none in Hrow];
         cbn in Hrow; discriminate.
   Qed.
